@@ -17,6 +17,7 @@ import Ach.Model.ReversalDriver
 import Ach.Model.FileCreateDriver
 import Ach.Model.JsonDriver
 import Ach.Model.ReadOnlyDriver
+import Ach.Model.GoLiteDriver
 /-!
 `achmodel`: the executable model behind the correspondence check.  Reads one
 operation per line on stdin, writes one result line per operation.
@@ -100,6 +101,7 @@ def step (cx : Ctx) (line : String) : String :=
   | "filecreate" :: args => Ach.FileCreate.runLine args
   | "json" :: args => Ach.JsonDriver.run args
   | "readonly" :: args => Ach.ReadOnly.runLine args
+  | "recvalidate" :: args => Ach.GoLiteDriver.run args
   | ["mask", "number", h] =>
     match hexToStr h with
     | some s => bytesToHex (ByteArray.mk (maskNumber s).toArray)
